@@ -36,6 +36,11 @@ func (w *World) opTable() []opFn {
 	if p.Probe != "" {
 		ops = append(ops, opFn{"probe-" + p.Probe, 10, func() bool { return w.wantProbe == "" }, func() { w.wantProbe = p.Probe }})
 	}
+	if p.Hostile {
+		ops = append(ops, opFn{"hostile-pod", 14, func() bool { return w.wantProbe == "" }, w.opHostilePod})
+		ops = append(ops, opFn{"hostile-http", 8, func() bool { return w.wantProbe == "" }, w.opHostileHTTP})
+		ops = append(ops, opFn{"hostile-conf", 2, func() bool { return w.wantProbe == "" }, w.opHostileConf})
+	}
 	if p.Finish {
 		ops = append(ops, opFn{"finish-pod", 5, func() bool {
 			return len(w.podsWhere(func(p *PodInfo) bool { return p.Node != "" && p.live() })) > 0
@@ -463,7 +468,9 @@ func (w *World) opReload() {
 	})
 	w.S.Logf("conf %s -> %s", desc, js)
 	w.S.Stat("reload." + desc)
-	if w.C.Prob(2, 3) {
+	// C19: the real daemon reloads from exactly one goroutine (the periodic loop), a second concurrent reload would
+	// be an artefact of the harness
+	if w.C.Prob(2, 3) && !w.armed("C19") {
 		inst := w.inst
 		w.spawnGalaxy("reload", "reload", func() { reloadTask(inst) })
 	}
